@@ -347,11 +347,12 @@ class Gen:
         # blank comments inside header
         hdr = ''.join(c if (mc != ' ' or c == ' ') else ' ' for c, mc in zip(hdr, L.mask(hdr, keep_strings=True)))
         retname = opts.get('ret')
+        hdr_pieces = None
         if f['ret'] and retname:
             a, b = f['ret'][0] - f['start'], f['ret'][1] - f['start']
-            rt = hdr[a:b].strip()
-            hdr = hdr[:a] + ' (' + retname + ': ' + rt + ')' + (' ' if f['where'] else '') + hdr[b:]
-        hdr = hdr.rstrip()
+            hdr_pieces = [hdr[:a], hdr[a:b].strip(), hdr[b:]]
+        else:
+            hdr = hdr.rstrip()
 
         # ---- contract + sub-directives
         contract, closures, loops, ghosts, substs, hsubsts = [], {}, {}, [], [], []
@@ -417,10 +418,19 @@ class Gen:
             # ghost annotations no longer apply; they are dropped and the function is verified without them
             closures, loops, ghosts, hoist = {}, {}, [], {}
         for a, b in hsubsts:
-            if a not in hdr:
-                raise Undecided('signature drift: header text %r not found in fn %s' % (a, label))
-            hdr = hdr.replace(a, b)
+            if hdr_pieces is not None:
+                hit = [k for k in range(3) if a in hdr_pieces[k]]
+                if not hit:
+                    raise Undecided('signature drift: header text %r not found in fn %s' % (a, label))
+                for k in hit:
+                    hdr_pieces[k] = hdr_pieces[k].replace(a, b)
+            else:
+                if a not in hdr:
+                    raise Undecided('signature drift: header text %r not found in fn %s' % (a, label))
+                hdr = hdr.replace(a, b)
             self.rewrites.append(('R7', label, a, b))
+        if hdr_pieces is not None:
+            hdr = (hdr_pieces[0] + ' (' + retname + ': ' + hdr_pieces[1].strip() + ')' + (' ' if f['where'] else '') + hdr_pieces[2]).rstrip()
 
         # ---- body
         if f['body'] is None:
@@ -577,6 +587,32 @@ class Gen:
         for m in re.finditer(r'\|\s*_\s*\|', bmask):
             if not any(e[0] <= m.start() < e[1] for e in edits):
                 edits.append((m.start(), m.end(), '|_unused|', 'R1'))
+        # R1c: a closure whose single parameter is a tuple pattern `|(a, b)| e` (Verus: variable patterns only)
+        #      -> `|p__N| { let (a, b) = p__N; e }`
+        for n_cl, (ca, cb) in enumerate(find_closures(bmask, 0, len(bmask))):
+            if not re.match(r'^\|\s*\([^()|]*\)\s*\|$', bmask[ca:cb]):
+                continue
+            if any(e[0] < cb and ca < e[1] for e in edits):
+                continue
+            e = cb
+            while bmask[e].isspace():
+                e += 1
+            q = e
+            if bmask[e] == '{':
+                q = L.match_close(bmask, e) + 1
+            else:
+                while q < len(bmask):
+                    if bmask[q] in '([{':
+                        q = L.match_close(bmask, q)
+                    elif bmask[q] in ',)]};':
+                        break
+                    q += 1
+            if any(e2[0] < q and e < e2[1] for e2 in edits):
+                continue
+            pat = btxt[ca:cb].strip()[1:-1].strip()
+            edits.append((ca, cb, '|p__%d|' % n_cl, 'R1'))
+            edits.append((e, e, '{ let %s = p__%d; ' % (pat, n_cl), 'R1'))
+            edits.append((q, q, ' }', 'R1'))
         edits = [e for _, e in sorted(enumerate(edits), key=lambda t: (t[1][0], t[1][1], t[0]))]
         for e1, e2 in zip(edits, edits[1:]):
             if e2[0] < e1[1]:
